@@ -109,6 +109,9 @@ def run(case, ctx):
 
 
 REPS = ("float32", "float32", "float32", "int32", "float64-x64")
+# operations that do not pass through jax's pytree flattening: they hand back the blocks in the storage order they received
+# (jit / vmap / tree_flatten sort the blocks and are held to "by type" only, as the statement says)
+ORDER_OPS = ("vector", "copy", "to_scalar", "expand_combine", "expand_merge", "pmap", "images")
 
 
 def run_chain(case, ctx):
@@ -175,12 +178,20 @@ def _run_chain(case, ctx, rep):
                 if list(nxt.keys()) != [(0, 0)] or got.shape != want.shape or not np.array_equal(got, want):
                     viols.append(viol("scalar-layout-position", f"to_scalar_multi_image does not place components at channel*D^k+component (chain {chain}); shape {got.shape} vs {want.shape}"))
                     break
+            if note.split(":")[0] in ORDER_OPS and set(nxt.keys()) == set(cur.keys()) and list(nxt.keys()) != list(cur.keys()):
+                viols.append(viol("relayout-reorders-blocks", f"{note} returned the blocks in order {list(nxt.keys())}, was {list(cur.keys())} (chain {chain}): the result is not interchangeable with the operand for to_vector / get_component / get_signature"))
+                break
             stack.append((closer, snapshot(cur), note))
             cur = nxt
         while stack and not viols:
             closer, snap, note = stack.pop()
+            before_keys = list(cur.keys())
             cur = closer(cur)
             evals += 1
+            want_keys = [t for t, _ in eval(note.split(":", 1)[1])] if note.startswith("to_scalar") else (list(snap["blocks"].keys()) if note in ("vector", "images") else before_keys)
+            if note.split(":")[0] in ORDER_OPS and set(cur.keys()) == set(want_keys) and list(cur.keys()) != want_keys:
+                viols.append(viol("relayout-reorders-blocks", f"closing {note} returned the blocks in order {list(cur.keys())}, expected {want_keys} (chain {chain}): what comes back is not interchangeable with what was put in (to_vector / get_component / get_signature read the storage order)"))
+                break
             msg = same_state(cur, snap, f"closing {note} (chain {chain})")
             if msg:
                 viols.append(viol("round-trip-" + note.split(":")[0], msg, chain=chain))
